@@ -200,7 +200,8 @@ fn yield_point(tid: usize) {
 fn keep(kind: u8, addr: usize, width: u8) -> bool {
     match *KEEP.lock().unwrap() {
         Some(k) => k(kind, addr, width),
-        None => true,
+        // default: statics of the executable image (log level, LazyLock / Once state words) are not modelled
+        None => !is_static(addr),
     }
 }
 fn before(kind: u8, addr: usize, width: u8) {
@@ -252,6 +253,12 @@ fn after(ev: &Event) {
 unsafe fn libc_exit() -> ! {
     unsafe extern "C" { fn _exit(code: i32) -> !; }
     unsafe { _exit(42) }
+}
+/// an explicit scheduling point of the harness itself (a decision that depends on what other
+/// threads did must be a visible step): yields, then records `T<tid> cell gate`
+pub fn gate(tid: usize) {
+    yield_point(tid);
+    record(tid, "cell gate".to_string());
 }
 pub fn record(tid: usize, text: String) {
     let mut g = SCHED.lock().unwrap();
